@@ -254,11 +254,28 @@ def check_box(box, args, case, n, mode, pc, ctx, note="", first=True):
         ctx.check(bool(np.all(spread >= 0.5)), "box:uniform-spread",
                   f"{what}: the {expected} points span only the fractions {spread.tolist()} of the box sides")
     if mode == "grid" and r >= 2:
+        # docstring: "a grid of regularly spaced points"; the statement pins the count and the domain, not where the grid sits in the
+        # box (corner to corner as today, or cell centred): per axis there must be exactly r distinct, equally spaced ticks inside the
+        # box, and the points must be the r^d distinct nodes of their product
         S = H - L
-        idx = np.rint((P - L) / S * (r - 1)).astype(int)
-        onl = np.abs(P - (L + idx / (r - 1) * S)) <= tol
-        if not ctx.check(bool(onl.all() and (idx >= 0).all() and (idx < r).all()), "box:grid-lattice",
-                         f"{what}: points are not on the {r}^{d} regular lattice of the box; e.g. {P[~onl.all(axis=1)][:1].tolist()}"):
+        idx = np.zeros(P.shape, dtype=int)
+        ok = True
+        for a in range(d):
+            col = P[:, a]
+            ticks = np.sort(col)
+            ticks = ticks[np.concatenate(([True], np.diff(ticks) > 1e-9 * S[a]))]
+            if not ctx.check(len(ticks) == r, "box:grid-lattice",
+                             f"{what}: axis {a} carries {len(ticks)} distinct coordinates, a {r}^{d} grid has {r}"):
+                ok = False
+                break
+            steps = np.diff(ticks)
+            if not ctx.check(bool(np.all(np.abs(steps - steps.mean()) <= 1e-9 * S[a] + tol)), "box:grid-lattice",
+                             f"{what}: the ticks of axis {a} are not regularly spaced: steps between {steps.min()!r} and {steps.max()!r}"):
+                ok = False
+                break
+            j = np.clip(np.searchsorted(ticks, col), 1, r - 1)
+            idx[:, a] = np.where(np.abs(col - ticks[j - 1]) <= np.abs(col - ticks[j]), j - 1, j)
+        if not ok:
             return
         keys = set(map(tuple, idx.tolist()))
         ctx.check(len(keys) == expected, "box:grid-distinct", f"{what}: only {len(keys)} distinct lattice nodes among {expected} points")
